@@ -20,6 +20,8 @@ no_num_sec_regex = re.compile(
 sec_regex = re.compile(
     fr"""
     (
+    # Not in the middle of a word ('intersection 50 feet').
+    (?<![A-Za-z])
     # The word or symbol "Section" (also captures named group 'plural'
     # if final 's' is present).
     {no_num_sec_regex.pattern}
